@@ -385,7 +385,7 @@ def check_stream(ctx, http, rng, enc, meta, only_cuts=None):
     cls = classify_stream(r)
     ctx.count("streams_" + cls)
     ctx.evaluated()
-    if meta.get("body") or meta.get("extra") or meta.get("mode", "").startswith(("mut", "targeted")):
+    if meta.get("body") or meta.get("extra") or meta.get("mode", "").startswith(("mut", "targeted", "replay")):
         ctx.distinct(enc)
     if cls == "must-accept" and "body" in meta and (r.body != meta["body"] or ("extra" in meta and r.extra != meta["extra"])):
         ctx.inconclusive("reference reader disagrees with the generator about a valid encoding: %r" % (enc[:80],))
@@ -481,6 +481,6 @@ def replay(ctx, w):
 
     x = w["witness"]
     enc = bytes.fromhex(x["stream_hex"])
-    check_stream(ctx, http, ctx.case_rng("replay"), enc, {"mode": "replay", "body": None}, only_cuts=x.get("cuts") or ())
+    check_stream(ctx, http, ctx.case_rng("replay"), enc, {"mode": "replay"}, only_cuts=x.get("cuts") or ())
     for k, v in ctx.violations.items():
         print("replayed: %s: %s" % (k, v["what"]))
